@@ -88,7 +88,7 @@ def gen_case(rng, idx, want_accept):
         fi = rng.randrange(n)
         it = plan[fi][1]
         ti = rng.randrange(len(it))
-        kind = rng.choice(['unknown-name', 'bad-value', 'wrong-token', 'wrong-token', 'truncate', 'callback'])
+        kind = rng.choice(['unknown-name', 'bad-value', 'wrong-token', 'wrong-token', 'truncate', 'callback', 'lexer-error'])
         if kind == 'callback':
             # no injected token: instead some options / sections carry a validation callback and its k-th invocation refuses
             def mark(ds):
@@ -113,6 +113,10 @@ def gen_case(rng, idx, want_accept):
         elif kind == 'wrong-token':
             p = rng.choice(['=', '+=', '{', '}', '(', ')', ','])
             it[ti] = [p, p, None]
+        elif kind == 'lexer-error':
+            # a token the scanner itself refuses (invalid octal number, bad escape sequence); it is reported on the line it is on
+            sp = rng.choice(['"a\\777b"', '"\\400"', '"x\\9"', '"\\8 y"', '"\\1234"', '"two words \\999"'])
+            it[ti] = ['lexerr', sp, None]
         elif kind == 'callback':
             pass
         else:
@@ -121,6 +125,10 @@ def gen_case(rng, idx, want_accept):
             if last is None or last != n - 1:
                 kind = 'wrong-token'
                 it[ti] = ['}', '}', None]
+            elif rng.random() < 0.3:
+                # the text ends inside a single-quoted string: the scanner reports it where the input ends
+                plan[last][1].append(['lexerr-open', "'never closed", None])
+                kind = 'open-string'
             else:
                 cut = rng.randint(0, len(plan[last][1]) - 1)
                 del plan[last][1][cut:]
@@ -341,6 +349,8 @@ def judge(spec, events, death):
         v.skipped = True
         return v
     efile, eline = tags[pos] if pos < len(tags) else eof
+    if pos < len(flat) and flat[pos][0] == 'lexerr-open':
+        efile, eline = eof          # an unterminated string is noticed at the end of the input
     # the name of the top-level source: the buffer name, the name given to cfg_parse(); a bare stream has no name of its own (not judged)
     if efile == 'main':
         efile = {'buf': '[buf]', 'file': 'main.conf', 'fp': None}[entry]
